@@ -20,8 +20,8 @@ var idxCodes = []uint64{0x00, 0x12, 0x12, 0x12, 0x13, 0x1b, 0xb220, 0x11, 1 << 3
 var idxWidths = []int{0, 1, 2, 4, 8, 20, 28, 32, 32, 32, 32, 48, 64, 65, 200}
 var idxOffsets = []uint64{0, 1, 51, 59, 127, 128, 255, 256, 65535, 65536, 1<<32 - 1, 1 << 32, 1<<63 - 1, 1 << 63, 1<<64 - 1}
 
-// rawCid builds a CIDv1 around an arbitrary (code, digest) multihash -- no hash function involved.
-func rawCid(codec, code uint64, digest []byte) cid.Cid {
+// c11RawCid builds a CIDv1 around an arbitrary (code, digest) multihash -- no hash function involved.
+func c11RawCid(codec, code uint64, digest []byte) cid.Cid {
 	m, err := mh.Encode(digest, code)
 	if err != nil {
 		panic(err)
@@ -107,7 +107,7 @@ func genRecordSet(r *RNG, n int) ([]idxRec, recFeatures) {
 			case 2: // same multihash, other codec
 				rs = append(rs, idxRec{cid.NewCidV1(pick(r, codecs), b.C.Hash()), genOffset(r)})
 			case 3: // same digest, other hash code
-				rs = append(rs, idxRec{rawCid(0x55, pick(r, idxCodes), dm.Digest), genOffset(r)})
+				rs = append(rs, idxRec{c11RawCid(0x55, pick(r, idxCodes), dm.Digest), genOffset(r)})
 			}
 			continue
 		}
@@ -119,7 +119,7 @@ func genRecordSet(r *RNG, n int) ([]idxRec, recFeatures) {
 			rs = append(rs, idxRec{cid.NewCidV0(m), genOffset(r)})
 			continue
 		}
-		rs = append(rs, idxRec{rawCid(pick(r, codecs), code, d), genOffset(r)})
+		rs = append(rs, idxRec{c11RawCid(pick(r, codecs), code, d), genOffset(r)})
 	}
 	ws, cs, ds := map[int]bool{}, map[uint64]bool{}, map[string]bool{}
 	for _, x := range rs {
@@ -149,22 +149,22 @@ func genQueries(r *RNG, rs []idxRec) []cid.Cid {
 		add(x.C)
 		dm, _ := mh.Decode(x.C.Hash())
 		if r.Chance(30) { // same digest under another hash code
-			add(rawCid(0x55, pick(r, idxCodes), dm.Digest))
+			add(c11RawCid(0x55, pick(r, idxCodes), dm.Digest))
 		}
 		if r.Chance(30) && len(dm.Digest) > 0 { // absent digest of a present width: neighbour
 			d := append([]byte(nil), dm.Digest...)
 			d[r.Intn(len(d))] ^= byte(1 + r.Intn(255))
-			add(rawCid(0x55, dm.Code, d))
+			add(c11RawCid(0x55, dm.Code, d))
 		}
 		if r.Chance(15) { // absent width
-			add(rawCid(0x55, dm.Code, append(append([]byte(nil), dm.Digest...), 0)))
+			add(c11RawCid(0x55, dm.Code, append(append([]byte(nil), dm.Digest...), 0)))
 			if len(dm.Digest) > 0 {
-				add(rawCid(0x55, dm.Code, dm.Digest[:len(dm.Digest)-1]))
+				add(c11RawCid(0x55, dm.Code, dm.Digest[:len(dm.Digest)-1]))
 			}
 		}
 	}
-	add(rawCid(0x71, 0x12, r.Bytes(32)))
-	add(rawCid(0x55, 0x00, nil))
+	add(c11RawCid(0x71, 0x12, r.Bytes(32)))
+	add(c11RawCid(0x55, 0x00, nil))
 	if len(qs) > 40 { // keep case lines small for big record sets: a random sample of the queries
 		for i := len(qs) - 1; i > 0; i-- {
 			j := r.Intn(i + 1)
@@ -530,7 +530,7 @@ func init() {
 			if len(b) >= 2 && r.Chance(70) {
 				b[0], b[1] = 0x80|byte(r.Intn(2)), 0x08
 			}
-			emitIdxRead(c, r, b, []cid.Cid{rawCid(0x55, 0x12, r.Bytes(32))}, "random")
+			emitIdxRead(c, r, b, []cid.Cid{c11RawCid(0x55, 0x12, r.Bytes(32))}, "random")
 		}
 	})
 }
